@@ -25,11 +25,12 @@ NukBad(E) ==
         BadOrder == { << i, j >> \in N \X N : ~OrderOK(E, i, j) } IN
     IF \E i \in N : E[i].op = "panic" THEN "C18_NoPanic"
     ELSE IF ~Injective(E) THEN "C18_Injective"
+    \* (separability before order: the known deviation J below must not hide a wrong split of long keys)
+    ELSE IF ~Separable(E) THEN "C18_Separable"
     ELSE IF BadOrder # {} THEN
         \* known deviation J: the 16-bit length suffix breaks the order for escaped primary keys >= 256 bytes
         IF \A w \in BadOrder : Len(E[w[1]].pri) >= 256 \/ Len(E[w[2]].pri) >= 256
         THEN "C18_Order_KF_LongPrimary" ELSE "C18_Order"
-    ELSE IF ~Separable(E) THEN "C18_Separable"
     ELSE "ok"
 
 Witness(E) ==
